@@ -458,7 +458,7 @@ def run_tie_printer(rp, tier, rng, items):
         if o.get("reparse"):
             oracle_bad.append((cid, sql, o["reparse"]))
         g = coq_gexpr(o["tree"])
-        if g is None or not printable_str(o.get("sql_out", "")):
+        if g is None or not printable_str(o.get("sql_out", "")) or "tokens" not in o:
             unmod_py += 1; continue
         cases.append((cid, sql, o, g))
     def mk(c):
